@@ -10,8 +10,10 @@
    External behaviour enters as explicit arguments: which external command fails, where the
    process dies, health outcomes, filesystem obstacles that make one SwapArtifact fail, and
    the admission facts about a tarball (signature valid, digests match, members safe, ...).
-   The two booleans of [variant] select the behaviour of the code as it is today
-   (both false) or with the proposed fixes (both true). *)
+   [repaired] is what /repo HEAD does (all four repairs are committed: 88f69f7, f4d379f, b6afef3, ca3a3f9).
+   The four booleans of [variant] exist only so that the historical behaviour can still be stated
+   ([pre_b6afef3], [pre_88f69f7]: `_refuted` witnesses in Properties.v); the correspondence check compares
+   /repo with [repaired] alone, so a regression to any of the old behaviours is a VIOLATION. *)
 From OV Require Import Common.Base.
 
 Definition path := N.
@@ -51,8 +53,9 @@ Record faults := {
   f_ob : list (path * bool);      (* obstacles appearing when the swap stage begins (true = persistent) *)
   f_rob : list (path * bool) }.   (* obstacles appearing when the restore stage begins *)
 
-(* v_keep_fix: a ForceRetry apply over an interrupted upgrade keeps that upgrade's snapshot;
-   v_stale_fix: Rollback refuses a journal whose snapshot never completed *)
+(* v_mode_fix (88f69f7): rollback restores setuid/setgid/sticky; v_curm_fix (f4d379f): rollback restores
+   current-manifest.yaml; v_keep_fix (b6afef3): a ForceRetry apply over an interrupted upgrade keeps that upgrade's
+   snapshot; v_stale_fix (ca3a3f9): Rollback refuses a journal whose snapshot never completed *)
 Record variant := { v_mode_fix : bool; v_curm_fix : bool; v_keep_fix : bool; v_stale_fix : bool }.
 
 (* "no current-manifest.yaml": version discovery then asks the installed binary, which the harness
@@ -72,7 +75,7 @@ Record entry := { e_path : path; e_kind : ekind }.
 Record snapdir := {
   s_meta : option (bool * list entry);     (* metadata.yaml: needs_vpp, entries *)
   s_bak : path -> option content;          (* backup copies *)
-  s_curm : option ver }.                   (* saved current-manifest.yaml (proposed fix only) *)
+  s_curm : option ver }.                   (* saved current-manifest.yaml (since f4d379f) *)
 
 Definition ghost := (bool * list (path * option file) * ver)%type.
 
@@ -397,7 +400,7 @@ Definition fresh_flow (v : variant) (T : tarball) (F : faults) (w : world) : wor
   let w2 := set_phase (if reset then set_gbase w1 (Some (true, base, cur w)) else w1) PSnapshotDone in
   after_snapshot v T F from w2.
 
-(* ForceRetry over an interrupted upgrade (proposed fix): keep its snapshot and its from-version *)
+(* ForceRetry over an interrupted upgrade (since b6afef3): keep its snapshot and its from-version *)
 Definition keep_flow (v : variant) (T : tarball) (F : faults) (w : world) (j : journal) (d : snapdir)
            (nv : bool) (es : list entry) : world * res :=
   let w0 := set_jr w (Some {| j_from := j_from j; j_to := t_to T; j_phase := PRetryStarted |}) in
@@ -548,10 +551,11 @@ Definition init_world (c : ver) (f : path -> option file) : world :=
      g_fs0 := f; g_clean := true |}.
 
 Definition repaired : variant := {| v_mode_fix := true; v_curm_fix := true; v_keep_fix := true; v_stale_fix := true |}.
-(* /repo at 88f69f7+f4d379f: mode and current-manifest fixes in, ForceRetry still re-snapshots, Rollback still
-   accepts a journal at "started" *)
-Definition head1 : variant := {| v_mode_fix := true; v_curm_fix := true; v_keep_fix := false; v_stale_fix := false |}.
-Definition defective : variant := {| v_mode_fix := false; v_curm_fix := false; v_keep_fix := false; v_stale_fix := false |}.
+(* historical: /repo between f4d379f and b6afef3 (mode and current-manifest fixes in, ForceRetry still
+   re-snapshots, Rollback still accepts a journal at "started") *)
+Definition pre_b6afef3 : variant := {| v_mode_fix := true; v_curm_fix := true; v_keep_fix := false; v_stale_fix := false |}.
+(* historical: /repo before 88f69f7 (none of the four repairs) *)
+Definition pre_88f69f7 : variant := {| v_mode_fix := false; v_curm_fix := false; v_keep_fix := false; v_stale_fix := false |}.
 
 (* ---- safeTarEntryPath: names are byte strings, '/' = 47, '.' = 46, '\' = 92 ---- *)
 Definition bstr := list N.
